@@ -459,7 +459,74 @@ def config_cases(ctx, rnd, np, direct, scratch, nperm):
     return cases
 
 
-def lazy_cases(ctx, rnd, np, nlazy, direct):
+def cached_data_cases(ctx, rnd, np, direct, scratch):
+    """cached-data file through ConfigLoader: load without a cache file == the run that writes the file == the run that reads it
+    (all leaves incl. weights; options bg_weight, weight_scale, per-event weight files; simple and multi data mode)"""
+    import ampkit
+    from tf_pwa import data as D
+    from tf_pwa.config_loader import ConfigLoader
+
+    from props.c17 import CFG
+
+    mf = {k: 0.1 for k in "BCD"}
+    names = ["data", "phsp", "bg", "inmc"]
+
+    def flat(x):
+        if x is None or isinstance(x, (dict, list, tuple)):
+            return x
+        return D.data_to_numpy(x)
+
+    def same(a, b):
+        if a is None or b is None:
+            return a is None and b is None
+        if isinstance(a, dict):
+            return isinstance(b, dict) and sorted(map(str, a)) == sorted(map(str, b)) and all(same(a[k], b[k]) for k in a)
+        if isinstance(a, (list, tuple)):
+            return isinstance(b, (list, tuple)) and len(a) == len(b) and all(same(x, y) for x, y in zip(a, b))
+        a, b = np.asarray(a), np.asarray(b)
+        return a.shape == b.shape and bool(np.allclose(a, b, rtol=1e-12, atol=0, equal_nan=True))
+    k = 0
+    for multi in (False, True):
+        for opts in ({}, {"weight_scale": True}, {"weight_scale": True, "bg_weight": 0.37}, {"bg_weight": 0.2, "data_weight": "W"}):
+            k += 1
+            d = os.path.join(scratch, "cd%d" % k)
+            os.makedirs(d, exist_ok=True)
+            nd, nph, nbg = rnd.randrange(5, 40), rnd.randrange(20, 60), rnd.randrange(3, 25)
+            for nm, n in (("data", nd), ("phsp", nph), ("bg", nbg)):
+                ev = ampkit.gen_events(1.0, mf, n, rnd.randrange(10 ** 6))
+                np.savetxt(os.path.join(d, nm + ".dat"), np.stack([ev[q] for q in "BCD"], axis=1).reshape((-1, 4)))
+            o = dict(opts)
+            if o.get("data_weight") == "W":
+                np.savetxt(os.path.join(d, "w.dat"), np.array([rnd.uniform(0.2, 2.0) for _ in range(nd)]))
+                o["data_weight"] = [os.path.join(d, "w.dat")]
+            wrap = (lambda f: [[f]]) if multi else (lambda f: [f])
+            if "data_weight" in o:
+                o["data_weight"] = o["data_weight"] if multi else o["data_weight"][0]
+            dsec = {"dat_order": ["B", "C", "D"], "data": wrap(os.path.join(d, "data.dat")), "phsp": wrap(os.path.join(d, "phsp.dat")),
+                    "bg": wrap(os.path.join(d, "bg.dat")), **o}
+            dsec["format"] = "multi" if multi else "simple"
+            import contextlib
+            import io
+            try:
+                with contextlib.redirect_stdout(io.StringIO()):
+                    ref = [flat(x) for x in ConfigLoader(dict(CFG, data=dict(dsec))).get_all_data()]
+                    cache = os.path.join(d, "cached.npy")
+                    wr = [flat(x) for x in ConfigLoader(dict(CFG, data=dict(dsec, cached_data=cache))).get_all_data()]
+                    rd = [flat(x) for x in ConfigLoader(dict(CFG, data=dict(dsec, cached_data=cache))).get_all_data()]
+            except Exception as e:
+                direct.append({"test": "cached-data file: load raised %r" % (e,), "multi": multi, "options": opts})
+                continue
+            ctx.evaluations += 3
+            ctx.count("cached_data_%s" % ("multi" if multi else "simple"))
+            ctx.distinct.add(("cached_data", multi, tuple(sorted(opts))))
+            for tag, got in (("writes", wr), ("reads", rd)):
+                bad = [nm for nm, a, b in zip(names, ref, got) if not same(D.data_to_numpy(a) if a is not None else None, D.data_to_numpy(b) if b is not None else None)]
+                if bad:
+                    direct.append({"test": "cached-data file: the run that %s the cache differs from the direct load in %s" % (tag, bad), "multi": multi,
+                                   "options": {kk: (vv if not isinstance(vv, list) else "file") for kk, vv in opts.items()}, "n": [nd, nph, nbg]})
+
+
+def lazy_cases(ctx, rnd, np, nlazy, direct, scratch=None):
     from tf_pwa import data as D
 
     cases = []
@@ -486,6 +553,10 @@ def lazy_cases(ctx, rnd, np, nlazy, direct):
         heavy = li % 3 == 2
         fn = lambda d: {k: a * v + c for k, v in d.items()}
         lz = D.LazyCall(D.HeavyCall(fn) if heavy else fn, x)
+        disk = heavy and scratch is not None and li % 2 == 0
+        if disk:  # on-disk tf.data cache shared by all batch sizes of this object (and of a second object below)
+            lz.set_cached_file(os.path.join(scratch, "lazycache%d" % li) + os.sep, "c")
+            ctx.count("lazy_disk_cache")
         extra = {}
         if rnd.random() < 0.7:
             extra = {k: g.leaf(n) for k in rnd.sample(KEYS[4:], rnd.randrange(1, 3))}
@@ -496,10 +567,19 @@ def lazy_cases(ctx, rnd, np, nlazy, direct):
         fm = "(map_leaves (affine (%d)%%Z (%d)%%Z))" % (a, c)
         # dict_union appends extra after f(x): encode with the same order (keys of x < keys of extra)
         cases.append(("lazyeval_%d" % li, "data_eqb (lazy_eval %s %s %s) %s = true" % (fm, X, E, enc(ev)), {"op": "LazyCall.eval", "n": n, "heavy": heavy}))
-        for b in batch_sizes(rnd, n)[:3]:
+        bs = batch_sizes(rnd, n)[:3]
+        objs = [(lz, b) for b in bs]
+        if disk:
+            # a second object over the same cache directory, other batch sizes first, then the first again
+            lz2 = D.LazyCall(D.HeavyCall(fn), x)
+            lz2.set_cached_file(os.path.join(scratch, "lazycache%d" % li) + os.sep, "c")
+            for k, v in extra.items():
+                lz2[k] = v
+            objs += [(lz2, b) for b in reversed(bs)] + [(lz, bs[0])]
+        for oi, (lz, b) in enumerate(objs):
             pieces = [D.data_to_numpy(p) for p in lz.as_dataset(b)]
-            cases.append(("lazyit_%d_b%d" % (li, b), "list_eqb data_eqb (lazy_batches %s 1000 %d %s %s) [%s] = true" % (fm, b, X, E, ";".join(enc(p) for p in pieces)),
-                          {"op": "LazyCall iteration", "n": n, "batch": b, "heavy": heavy, "extra": sorted(extra)}))
+            cases.append(("lazyit_%d_%d_b%d" % (li, oi, b), "list_eqb data_eqb (lazy_batches %s 1000 %d %s %s) [%s] = true" % (fm, b, X, E, ";".join(enc(p) for p in pieces)),
+                          {"op": "LazyCall iteration", "n": n, "batch": b, "heavy": heavy, "disk_cache": disk, "visit": oi, "extra": sorted(extra)}))
             ctx.evaluations += 1
             ctx.count("lazy_%s" % ("heavy" if heavy else "plain"))
             ctx.distinct.add(("lazy", li, b))
@@ -526,9 +606,11 @@ def run(ctx):
                 "merge(split), merge of independently sized pieces, batch_call (structure-valued and array-valued f), 2 masks (sparse, dense/all/none), "
                 "data_shape, 3 index paths (valid and invalid); dat files: 1..5 particles x 1..50 events x txt/npy/npz/dat x one or several files x "
                 "shuffled row content; CalAngleData.savetxt with shuffled order; SimpleData.savetxt/load_p4 for dat_order permutations; "
-                "save_data/save_dataz/load_data, cached-data file; LazyCall plain / HeavyCall with and without extra; distinct = distinct (operation, structure, batch)")
+                "save_data/save_dataz/load_data, cached-data file (ConfigLoader: direct load == run that writes == run that reads, with bg_weight / weight_scale / weight files, simple and multi data); LazyCall plain / HeavyCall (also with an on-disk cache shared by several batch sizes and objects) with and without extra; distinct = distinct (operation, structure, batch)")
     common.theorem_stage(ctx)
     scratch = os.path.join(ctx.dir, "files")
+    import shutil
+    shutil.rmtree(scratch, ignore_errors=True)  # stale tf.data / cached-data files of an earlier run must not be read back
     os.makedirs(scratch, exist_ok=True)
     direct = []
     cases = []
@@ -538,7 +620,8 @@ def run(ctx):
         cases += file_cases(ctx, rnd, np, 25 if quick else 200, direct, scratch)
         cases += config_cases(ctx, rnd, np, direct, scratch, 3 if quick else 6)
         ctx.log("file cases done: %d" % len(cases))
-        cases += lazy_cases(ctx, rnd, np, 9 if quick else 45, direct)
+        cached_data_cases(ctx, rnd, np, direct, scratch)
+        cases += lazy_cases(ctx, rnd, np, 9 if quick else 45, direct, scratch)
     except BadLeaf as ex:
         ctx.fail("decode", "leaf", "an array returned by the implementation does not hold event ids any more: %s" % ex,
                  site="tf_pwa.data", fingerprint="decode")
